@@ -230,6 +230,14 @@ def run(ctx):
             ok, out = ctx.run_harness(u.bin, [tr], tr)
             if ok:
                 traces.append(tr)
+    # conversions between aligned and packed types from compile-time visible sources in straight-line code (harness/c17alias.cpp), g++ -O2 / -O3
+    for nm, fl, opt in [("alias_sse2_O2", ["-DGLM_FORCE_INTRINSICS", "-msse2"], "-O2"), ("alias_avx2_O3", ["-DGLM_FORCE_INTRINSICS", "-mavx2", "-mfma"], "-O3")]:
+        ba = ctx.build("c17" + nm, "c17alias.cpp", flags=fl, opt=opt, label="c17 " + nm)
+        if ba:
+            tra = ctx.scratch.path("c17_%s.ndjson" % nm)
+            ok, out = ctx.run_harness(ba, [tra], tra)
+            if ok:
+                traces.append(tra)
     # the census as events: one per absent batch, classified by Trace_C17 (by design -> skip, deviation -> known, anything else -> bad)
     cen = ctx.scratch.path("c17_census.ndjson")
     census = {}
